@@ -79,7 +79,7 @@ def api(pid, category, text, ref, technique):
     }
 
 CHECKS.append(api("C06", "exploration",
-    "Real Broker, Connection, ClientBuilder/Client and every client-side type run under the deterministic executor with 2-4 clients (versions 1.14-1.20; core::channel unbounded / bounded(1,2,4,16) or the simulated pipe) whose application tasks interpret random closed programs over the public API, with calls dropped or cancelled mid-flight, establish cancelled, spurious polls and Pending-injecting transports. Oracle: no Client::run returns UnexpectedMessageReceived (or any error), no poll of repository code panics (debug assertions on) or fails to return, at the first quiescence no task is blocked in an operation whose peer has acted (lost wake-up / deadlock), awaited calls return the value computed for that call, channel sessions deliver the produced sequence, every task has completed after all clients shut down and shutdown_idle makes Broker::run return; the broker model runs in lock step.",
+    "Real Broker, Connection, ClientBuilder/Client and every client-side type run under the deterministic executor with 2-4 clients (versions 1.14-1.20; core::channel unbounded / bounded(1,2,4,16) or the simulated pipe) whose application tasks interpret random closed programs over the public API, with calls dropped or cancelled mid-flight, establish cancelled, spurious polls and Pending-injecting transports. Oracle: no Client::run returns UnexpectedMessageReceived (or any error), no poll of repository code panics (debug assertions on) or fails to return, at the first quiescence no task is blocked in an operation whose peer has acted (lost wake-up / deadlock), awaited calls return the value computed for that call, channel sessions deliver the produced sequence, an introspection query returns exactly the registered description whenever the type is registered locally or by a client connected throughout, every task has completed after all clients shut down and shutdown_idle makes Broker::run return; the broker model runs in lock step.",
     "DESIGN.md section 5 C06", SIM.replace("broker/connection", "broker/connection/client") + "quiescence-based liveness oracle, result consistency checks"))
 CHECKS.append(api("C15", "fault_enumeration",
     "The C06 programs plus one termination of a victim client per run: transport error or EOF at transport-operation index k (k a per-run fraction of the victim's operation count measured in a fault-free execution of the same plan) or Handle::shutdown / all handles dropped / BrokerHandle::shutdown / shutdown_connection applied at operation count k; 12 (quick) or 96 (thorough) (cause, k, schedule) variants per generated program. Oracle: the victim's Client::run returns Ok for clean causes and the injected transport error otherwise, no task of the victim is still blocked once run() has returned, nothing panics, every task has completed at the end, Connection::run returned and the broker model holds nothing of the victim, other clients finish.",
